@@ -42,7 +42,7 @@ CHECK_FLAGS = [
 MEM_KB = 16 * 1024 * 1024
 
 LABEL_RE = re.compile(r"(?:/\*@\s*|\b(?:ENS|REQ)\(\s*\")([A-Za-z0-9+]+/[\w.\-]+)(?:\s*\*/|\")")
-DESC_LABEL_RE = re.compile(r"^((?:C\d\d\+?)+|canary)/[\w.\-]+$")
+DESC_LABEL_RE = re.compile(r"^((?:C\d\d\+?)+|canary|reach)/[\w.\-]+$")
 
 
 class NoVerdict(Exception):
@@ -119,7 +119,7 @@ def contract_labels(fn):
 
 def props_of(label):
     head = label.split("/", 1)[0]
-    if head == "canary":
+    if head in ("canary", "reach"):
         return []
     return head.split("+")
 
@@ -288,7 +288,7 @@ def instrument(res):
 
 def cbmc_cmd(res, extra=()):
     spec = res.spec
-    cmd = ["cbmc"] + CHECK_FLAGS
+    cmd = ["cbmc"] + [f for f in CHECK_FLAGS if not (spec.get("no_leak_check") and f == "--memory-leak-check")]
     unwind = spec.get("unwind_" + res.tier, spec.get("unwind"))
     if unwind:
         cmd += ["--unwind", str(unwind), "--unwinding-assertions"]
@@ -422,6 +422,14 @@ def guards(res):
             for ob in obs:
                 if ob["status"] == "SUCCESS":
                     res.problems.append("vacuity: canary %s is unreachable" % lab)
+    # reachability probes inside the OS layer: must fail where the spec lists them
+    for lab in spec.get("must_fail", []):
+        obs = labels.get(lab, [])
+        if not obs:
+            res.problems.append("must-fail: probe %s produced no obligation" % lab)
+        for ob in obs:
+            if ob["status"] == "SUCCESS":
+                res.problems.append("vacuity: %s is unreachable" % lab)
     if ncan == 0 and not spec.get("no_canary"):
         res.problems.append("harness has no canary")
     # 3. hooked loops need their invariant obligations
@@ -441,7 +449,7 @@ def failures(res, prop=None):
         if ob["status"] == "SUCCESS":
             continue
         lab = ob["label"]
-        if lab and lab.startswith("canary/"):
+        if lab and lab.startswith(("canary/", "reach/")):
             continue
         if ob["cls"] == "unwind":
             continue
@@ -689,8 +697,8 @@ def write_evidence(prop, tier, seed, results, viol, wall):
         n = d = 0
         hc = {}
         for ob in r.obligations:
-            if ob["label"] and ob["label"].startswith("canary/"):
-                ncanary += 1
+            if ob["label"] and ob["label"].startswith(("canary/", "reach/")):
+                ncanary += ob["status"] != "SUCCESS"
                 continue
             n += 1
             if ob["status"] == "SUCCESS":
